@@ -309,6 +309,37 @@ func c10Sweep(f func(b []byte, p int) interface{}, v []byte, p int, mode string)
 				return bad
 			}
 		}
+	case "lp":
+		// page-shaped input: each of the first four line pointers gets every length 0..48 (tuple header guards 23/24, item
+		// header 8) and a set of hostile offsets, the other fields kept (seeded change C10-4: lp_len exactly 23)
+		if len(v) < 8192 {
+			return "ok"
+		}
+		x := append([]byte(nil), v...)
+		for i := 0; i < 4; i++ {
+			base := 24 + 4*i
+			w := uint32(x[base]) | uint32(x[base+1])<<8 | uint32(x[base+2])<<16 | uint32(x[base+3])<<24
+			put := func(nw uint32) {
+				x[base], x[base+1], x[base+2], x[base+3] = byte(nw), byte(nw>>8), byte(nw>>16), byte(nw>>24)
+			}
+			for l := uint32(0); l <= 48; l++ {
+				put(w&0x0001ffff | l<<17)
+				if bad := try(x, fmt.Sprintf("lp%d-len-%d", i, l)); bad != "" {
+					return bad
+				}
+				put(w&0x00018000 | l<<17 | 1<<15 | (8192 - l)) // NORMAL, ending exactly at the page end
+				if bad := try(x, fmt.Sprintf("lp%d-len-%d-at-page-end", i, l)); bad != "" {
+					return bad
+				}
+			}
+			for _, off := range []uint32{0, 1, 23, 24, 28, 8168, 8169, 8176, 8184, 8191, 8192, 32767} {
+				put(w&0xffff8000 | off)
+				if bad := try(x, fmt.Sprintf("lp%d-off-%d", i, off)); bad != "" {
+					return bad
+				}
+			}
+			put(w)
+		}
 	case "flip":
 		x := append([]byte(nil), v...)
 		for i := range x {
